@@ -26,7 +26,7 @@ ASSUMPTIONS = ["set semantics for the offset lists (a repeated offset is not a C
 
 
 def plan(tier):
-    return {"cases": 1600 if tier == "quick" else 30000, "shards": 16,
+    return {"cases": 1600 if tier == "quick" else 100000, "shards": 16,
             "shard_budget_s": 300 if tier == "quick" else 3300}
 
 
